@@ -67,7 +67,7 @@ T0 == [k |-> "t", id |-> 0]
 Jumps(A, ctx) == (IF "retx" \in A.jumps THEN {[k |-> "retx", id |-> 0]} ELSE {}) \cup {[k |-> j] : j \in A.jumps \cap ({"return"} \cup (IF ctx # "top" THEN {"break"} ELSE {})
                                                            \cup (IF InLoop(ctx) THEN {"continue"} ELSE {}))}
 \* an infinite loop must make progress: its first body statement spends budget, yields or leaves
-Productive(c, body) == ~IsNone(c) \/ (body # <<>> /\ Head(body).k \in {"eff", "effx", "unsup", "pullit", "iife", "nestgen", "yield", "yfrom", "if", "switch", "break", "return", "retx", "panic"})
+Productive(c, body) == ~IsNone(c) \/ (body # <<>> /\ Head(body).k \in {"eff", "effx", "unsup", "pullit", "iife", "nestgen", "yield", "ygen", "yfrom", "if", "switch", "break", "return", "retx", "panic"})
 Case(g, body) == [g |-> g, body |-> body, ft |-> FALSE]
 Switch(init, form, cases) == [k |-> "switch", init |-> init, form |-> form, c |-> T0, cases |-> cases]
 
